@@ -3,8 +3,8 @@ CONSTANTS
   Thorough = TRUE
   Mut = "none"
   Dev_h12 = FALSE
-  Dev_h13 = TRUE
-  Dev_ownerAbsent = TRUE
+  Dev_h13 = FALSE
+  Dev_ownerAbsent = FALSE
   Emit = TRUE
 INVARIANTS AuthUserSound AuthUserComplete AuthOwnerSound AuthOwnerComplete KeyAgreement NoKeyWithoutAuth Plaintext Shapes ImplDictRefines ImplKeyRefines ImplItemRefines ImplOpens ImplRejects EmitInv
 CHECK_DEADLOCK FALSE
